@@ -235,4 +235,25 @@ def rule_multpair(ctx):
                         lambda i: True, 2)
 
 
-RULES = [rule_prov, rule_mult, rule_leafcount, rule_multpair]
+def rule_exec(ctx):
+    """Shared with C02-COREKEY / C02-LISTS(leaf): the steps that are executed are the
+    ones reported only if the compiled contractor is looked up with every option
+    (the order among them), and the peak only if sliced leaves lose their cached size."""
+    from .c02 import rule_corekey, rule_lists
+
+    r = C.reuse_rule(ctx, rule_corekey, "C02-COREKEY", "C03-EXEC",
+                     "executed steps are the reported ones: contractor memo keyed by every "
+                     "option; sliced leaves lose their cached size", lambda i: True, 2)
+    src = rule_lists(ctx)
+    for i in src.instances:
+        if "::leaf" not in i.construct:
+            continue
+        c = i.construct.replace("C02-LISTS", "C03-EXEC")
+        if i.verdict == "violation":
+            r.violation(c, i.loc, i.reason, **i.detail)
+        else:
+            r.ok(c, i.loc, i.reason)
+    return r
+
+
+RULES = [rule_prov, rule_mult, rule_leafcount, rule_multpair, rule_exec]
